@@ -373,3 +373,19 @@ LEVEL_TEXT += _ADDR5B
 _ADDR5D = " Borrowed: R09.5 (get_discriminator(look_in_parents) walks the whole MRO through each class's own Config)."
 EXPLANATION += _ADDR5D
 LEVEL_TEXT += _ADDR5D
+
+
+_run_before_r6c = run
+
+
+def run(repo, rep, tier):  # noqa: F811 -- round-6 remedies, batch 3
+    _run_before_r6c(repo, rep, tier)
+    if getattr(rep, "borrowed", False):
+        return
+    from ..core import round6 as _r6c
+    _r6c.speculative_variant_calls_guarded(repo, rep, "R05.16")
+
+
+_ADDR6D = ' Borrowed: R05.16.'
+EXPLANATION += _ADDR6D
+LEVEL_TEXT += _ADDR6D
